@@ -303,6 +303,27 @@ def run(ctx):
         else:
             st["agreed"] += 1
             st["hist"]["first_word"] += 1
+    # the words the program's own options are made of (help, version, nocolor, no-color, -h, /c ...) inside a query - in a
+    # literal, a root path, a column name - passed as ONE argument and split into words: the same rows (repaired finding F66)
+    for dname in ("help", "version", "t/nocolor", "t/no-color"):
+        os.makedirs(os.path.join(base, dname), exist_ok=True)
+        open(os.path.join(base, dname, "inside.txt"), "w").close()
+    for fname in ("t/help.txt", "t/version.rs", "t/-h", "t/nocolor.txt"):
+        open(os.path.join(base, fname), "w").close()
+    owords = ["name from t where name = 'help.txt'", "name from t where name like '%version%' order by name", "name from t where name != 'nocolor' order by name",
+              "name from t where name != 'no-color' and name like '%.txt' order by name", "name from help", "name from version", "name from t/nocolor", "name from t/no-color",
+              "exif_version, name from t order by name", "name from t where name = '-h'", "name from t where name = '/?' or name = 'a.txt'", "name from t where path like '%/help%' order by name",
+              "select name from t where name = 'HELP.TXT' or name = 'Version.rs' order by name", "name, 'help' from t order by name", "name from t order by name into csv --nocolor"]
+    ojobs = [([q], q.split(" "), "option-word") for q in owords]
+    for (c, v, d), a, b in pmap(one, ojobs):
+        nrows += 1
+        # the split form of a quoted literal keeps its quotes, so both are the same query text
+        if (a["status"], a["stdout"]) != (b["status"], b["stdout"]):
+            ctx.violation("impl-violates-spec", "a query that mentions an option word means something else as one argument than split into words (status %s / %s)" % (a["status"], b["status"]),
+                          input={"canonical_argv": c, "variant_argv": v}, observed=a["stdout"][:200], expected=b["stdout"][:200])
+        else:
+            st["agreed"] += 1
+            st["hist"]["option_word_in_query"] += 1
     # recorded finding F23 (argument splitting around the search root)
     for k in load_known():
         if k["property"] == "C11" and k["status"] == "known":
@@ -313,6 +334,6 @@ def run(ctx):
                 ctx.notes.append("%s: witness no longer fails; update KNOWN_FINDINGS.json" % k["id"])
     ctx.coverage.update(
         evaluations=len(cases) + nrows, distinct_nontrivial=len(st["distinct"]), traces_validated_against_impl=st["agreed"],
-        rule="valid queries from a typed generator (1-4 columns incl. functions/arithmetic, or aggregates with count(*) in either bracket style, root options (after FROM, or directly after the columns in a query without FROM), WHERE with all operator kinds, brackets, GROUP BY (directly after the root options and after WHERE), ORDER BY, LIMIT, INTO) x renderings: with and without the leading `select` (always, and always run on the binary), split at every whitespace, random split sets (keeping the search root alone in its argument, see F23), EVERY alias of every aliased token one at a time (alias groups read from the regenerated Field / Function / Op / arithmetic tables), a case variant of every word, the other bracket style, every alias of the safe columns and of several functions as the first word of the command line with and without `select`; optional tokens (select, commas, asc, () after an argument-less function) and random mixtures; the parsed Query of the real parser must be identical to that of the canonical rendering, and (sampled) the binary's output identical. non-trivial = a rendering that differs textually from the canonical one",
+        rule="valid queries from a typed generator (1-4 columns incl. functions/arithmetic, or aggregates with count(*) in either bracket style, root options (after FROM, or directly after the columns in a query without FROM), WHERE with all operator kinds, brackets, GROUP BY (directly after the root options and after WHERE), ORDER BY, LIMIT, INTO) x renderings: with and without the leading `select` (always, and always run on the binary), split at every whitespace, random split sets (keeping the search root alone in its argument, see F23), EVERY alias of every aliased token one at a time (alias groups read from the regenerated Field / Function / Op / arithmetic tables), a case variant of every word, the other bracket style, every alias of the safe columns and of several functions as the first word of the command line with and without `select`; queries that mention the program's option words (help, version, nocolor, -h ...) in a literal, a root or a column, as one argument and split; optional tokens (select, commas, asc, () after an argument-less function) and random mixtures; the parsed Query of the real parser must be identical to that of the canonical rendering, and (sampled) the binary's output identical. non-trivial = a rendering that differs textually from the canonical one",
         samples=st["samples"], distribution=dict(st["hist"]))
     return ctx.finish(trusted=["the alias groups are the ones the source's own lookup tables define (regenerated on this run); docs/usage.md is compared with them in props/C11.v"])
